@@ -103,7 +103,7 @@ Fixpoint iexec (p : prog) (cid fl : N) (s : istate) {struct p} : ires :=
       | INormal s1 => iexec q cid fl s1
       | r => r
       end
-  | Call c f body =>
+  | CallV _ c f body =>
       if has fl fR && has fl fC && (f <=? fAll) && is_contract c then
         match iexec body c (N.land fl f) s with
         | INormal s2 => INormal s2                 (* commit *)
